@@ -133,3 +133,16 @@ if _os.path.exists(_p):
     CONTRACTS.extend(_m.CONTRACTS)
     for _k, _v in getattr(_m, 'CLASS_SPECS', {}).items():
         CLASS_SPECS.setdefault(_k, {}).update(_v)
+
+# ---- the transport function wbem_request() and the secrecy of what observers are given live in a second sibling file
+_p2 = _os.path.join(_os.path.dirname(_os.path.abspath(__file__)), 'C19_http.py')
+if _os.path.exists(_p2):
+    _s2 = _ilu.spec_from_file_location('contracts_C19_http', _p2)
+    _m2 = _ilu.module_from_spec(_s2)
+    _sys.modules['contracts_C19_http'] = _m2
+    _sys.modules.setdefault('contracts_C19', _sys.modules.get('contracts_C19') or _sys.modules[__name__])
+    _s2.loader.exec_module(_m2)
+    CONTRACTS.extend(_m2.CONTRACTS)
+    for _k, _v in getattr(_m2, 'CLASS_SPECS', {}).items():
+        CLASS_SPECS.setdefault(_k, {}).update(_v)
+    LEMMAS = list(globals().get('LEMMAS', [])) + list(getattr(_m2, 'LEMMAS', []))
